@@ -31,11 +31,14 @@ pub fn doc_bv(bits: &[bool]) -> Vec<u64> {
 }
 /// sparse vector with an arbitrary admissible low width
 pub fn doc_sparse(n: u64, vals: &[u64], w: u64) -> Vec<u64> {
-    let buckets = (n >> w) + if n & ((1u64 << w) - 1) != 0 { 1 } else { 0 };
+    // arithmetic on u128 so that the document's `x >> w` and `x mod 2^w` are meaningful for every width 1..=64
+    let shr = |x: u64| ((x as u128) >> w) as u64;
+    let lowp = |x: u64| ((x as u128) & ((1u128 << w) - 1)) as u64;
+    let buckets = shr(n) + if lowp(n) != 0 { 1 } else { 0 };
     let mut high: Vec<bool> = Vec::new();
     let mut i = 0usize;
-    for b in 0..buckets { while i < vals.len() && (vals[i] >> w) == b { high.push(true); i += 1; } high.push(false); }
-    let low: Vec<u64> = vals.iter().map(|v| v & ((1u64 << w) - 1)).collect();
+    for b in 0..buckets { while i < vals.len() && shr(vals[i]) == b { high.push(true); i += 1; } high.push(false); }
+    let low: Vec<u64> = vals.iter().map(|v| lowp(*v)).collect();
     let mut out = vec![n]; out.extend(doc_bv(&high)); out.extend(doc_int(&low, w)); out
 }
 fn rl_code(mut v: u64, out: &mut Vec<u64>) { while v > 7 { out.push((v & 7) | 8); v >>= 3; } out.push(v); }
@@ -385,16 +388,17 @@ pub fn c07(g: &mut Gen) {
     }
     // direction 2: files produced from the document's rules alone — supports absent, any admissible parameter — load and
     // answer all queries correctly
-    for n in [0u64, 1, 2, 63, 64, 65, 1000, 1 << 20] {
+    for n in [0u64, 1, 2, 5, 63, 64, 65, 1000, 1 << 20, 1 << 40, (1 << 63) + 12345, u64::MAX] {
         let m = std::cmp::min(n, if g.thorough { 200 } else { 50 });
         let mut vals: Vec<u64> = (0..m).map(|_| g.rng.below(n.max(1))).collect(); vals.sort(); vals.dedup();
         if n == 0 { vals.clear(); }
-        for w in [1u64, 2, 5, 13, 20] {
-            if (n >> w) > 5000 { continue; }
+        // every low width the document allows (`w >= 1`, an integer vector has width 1..=64), incl. far from the ideal
+        for w in [1u64, 2, 5, 13, 20, 33, 47, 58, 63, 64] {
+            if ((n as u128) >> w) > 5000 { continue; }
             let mut lines = vec![format!("ser load sp cut=- x=ok store=S : {}", ws(&doc_sparse(n, &vals, w)))];
             lines.push(format!("sp S ref {} {}", n, ws(&vals)));
             lines.push("sp S len".to_string()); lines.push("sp S ones".to_string());
-            for i in [0u64, 1, n / 3, n / 2, n.saturating_sub(1), n, n + 1] {
+            for i in [0u64, 1, n / 3, n / 2, n.saturating_sub(1), n, n.saturating_add(1)] {
                 if i < n { lines.push(format!("sp S get {}", i)); }
                 lines.push(format!("sp S rank {}", i)); lines.push(format!("sp S pred {}", i)); lines.push(format!("sp S succ {}", i));
                 lines.push(format!("sp S select {}", i % (vals.len() as u64 + 2))); lines.push(format!("sp S select0 {}", i));
